@@ -279,6 +279,17 @@ fn run_case(report: &Report, rt: &Arc<tokio::runtime::Runtime>, provider: &Provi
     let case = || json!({"engine": "P", "harness": "c16.tool_loop", "script": format!("{s:?}"), "tool_choice": format!("{choice:?}"), "stateless_history": stateless});
     let received = provider.received(key);
     let events = app.log_events();
+    // a request that fails schema validation is never sent: every request the provider RECEIVED
+    // passes the schema files, compiled independently of the gate under test
+    if !numbering_only {
+        for (k, r) in received.iter().enumerate() {
+            let errs = crate::orschema::create_response_body_errors(r);
+            if !errs.is_empty() {
+                report.violation("C16:invalid_request_sent", case(), &format!("request #{k} reached the provider although it fails the schema: {}", errs.join(" | ")));
+                break;
+            }
+        }
+    }
     // every stream of the log reads 0,1,2,... in file order (each branch of the loop - executed,
     // refused, failed, unknown tool - threads the session counter through its synthesized frames)
     {
@@ -456,6 +467,128 @@ fn run_endless(report: &Report, rt: &Arc<tokio::runtime::Runtime>, provider: &Pr
 /// C01 part: the session / thread counters through every branch of the tool loop (sequential
 /// runs; the oracle is the per-stream numbering of the log). Scripts with at most one call x all
 /// seven tool_choice settings x both history modes.
+/// Identifiers the schema constrains (call id length, function name alphabet): one call whose id or
+/// name is at or beyond the limits. Whatever the loop does with it - answer it, refuse it, end the
+/// run - no request that fails the schema may reach the provider.
+fn odd_identifier_sweep(report: &Report, rt: &Arc<tokio::runtime::Runtime>, provider: &Provider) {
+    let ids: Vec<(String, &str)> = vec![("call_1".into(), "plain"), (String::new(), "empty"), ("c".repeat(64), "64_chars"), ("c".repeat(65), "65_chars"), ("c".repeat(300), "300_chars"), ("call id\u{e9}".into(), "odd_chars")];
+    let names: Vec<(String, &str)> = vec![("read".into(), "read"), ("functions.noop".into(), "dotted"), ("n".repeat(64), "64_chars"), ("n".repeat(65), "65_chars"), (String::new(), "empty"), ("na me".into(), "space")];
+    let cases: Vec<(usize, usize, bool)> = (0..ids.len()).flat_map(|i| (0..names.len()).flat_map(move |n| [(i, n, false), (i, n, true)])).collect();
+    let invalid_ends = std::sync::atomic::AtomicU64::new(0);
+    cases.par_iter().for_each(|(i, n, stateless)| {
+        if report.over_cap() {
+            return;
+        }
+        let key = format!("odd-{i}-{n}-{stateless}/v1/responses");
+        let (cid, cid_label) = &ids[*i];
+        let (name, name_label) = &names[*n];
+        let evs = vec![
+            json!({"type": "response.completed", "response": {"id": "resp_1"}}),
+            json!({"type": "response.output_item.done", "output_index": 0, "item": {"type": "function_call", "id": "fc_0", "call_id": cid, "name": name, "arguments": "{\"path\":\"seed.txt\"}"}}),
+            Value::String("[DONE]".into()),
+        ];
+        provider.script(
+            &key,
+            vec![Resp::Sse { chunks: vec![sse(&evs)], abort: false }, Resp::Sse { chunks: vec![sse(&[json!({"type": "response.output_text.delta", "delta": "done"}), Value::String("[DONE]".into())])], abort: false }],
+            true,
+        );
+        let mut cfg = config(provider.endpoint(&key));
+        cfg.stateless_history = *stateless;
+        let app = App::new(rt.clone(), Some(cfg));
+        std::fs::write(app.root.join("seed.txt"), "seed\n").unwrap();
+        let thread = app.ensure_thread();
+        let _ = app.post_and_wait(&thread, "go", None, Duration::from_secs(8));
+        report.eval(Some(&("odd_identifier", cid_label, name_label, stateless)));
+        report.count("odd_identifier_runs", 1);
+        if app.log_events().iter().any(|e| matches!(&e.kind, EventKind::SessionEnded { reason } if reason == "invalid_request")) {
+            invalid_ends.fetch_add(1, std::sync::atomic::Ordering::SeqCst);
+        }
+        for (k, r) in provider.received(&key).iter().enumerate() {
+            let errs = crate::orschema::create_response_body_errors(r);
+            if !errs.is_empty() {
+                report.violation(
+                    "C16:invalid_request_sent",
+                    json!({"engine": "P", "harness": "c16.odd_identifiers", "call_id": cid_label, "name": name_label, "stateless_history": stateless}),
+                    &format!("request #{k} reached the provider although it fails the schema: {}", errs.join(" | ")),
+                );
+                break;
+            }
+        }
+        provider.forget(&key);
+    });
+    report.count("odd_identifier_runs_ended_invalid_request", invalid_ends.load(std::sync::atomic::Ordering::SeqCst));
+}
+
+/// Runs that start from a compiled context with EARLIER turns (the second message of a thread) and
+/// make 1 or 2 tool rounds: in stateless-history mode every request's input extends the previous
+/// request's input; and no request that fails the schema is sent.
+fn prior_turn_sweep(report: &Report, rt: &Arc<tokio::runtime::Runtime>, provider: &Provider) {
+    let items = [Item::WriteA, Item::Read, Item::Unknown, Item::BadArgs];
+    let cases: Vec<(Item, usize, bool, Choice)> = items
+        .iter()
+        .flat_map(|it| [1usize, 2].into_iter().flat_map(move |rounds| [false, true].into_iter().flat_map(move |st| [Choice::Auto, Choice::NoneMode].into_iter().map(move |c| (it.clone(), rounds, st, c)))))
+        .collect();
+    cases.par_iter().enumerate().for_each(|(n, (item, rounds, stateless, choice))| {
+        if report.over_cap() {
+            return;
+        }
+        let key = format!("prior-{n}/v1/responses");
+        let text = |t: &str| Resp::Sse { chunks: vec![sse(&[json!({"type": "response.output_text.delta", "delta": t}), Value::String("[DONE]".into())])], abort: false };
+        provider.script(&key, vec![text("first answer")], true);
+        let mut cfg = config(provider.endpoint(&key));
+        cfg.tool_choice = choice_param(choice);
+        cfg.stateless_history = *stateless;
+        let app = App::new(rt.clone(), Some(cfg));
+        std::fs::write(app.root.join("seed.txt"), "seed\n").unwrap();
+        let thread = app.ensure_thread();
+        let _ = app.post_and_wait(&thread, "first question", None, Duration::from_secs(8));
+        provider.forget(&key);
+        let call = |k: usize| {
+            Resp::Sse {
+                chunks: vec![sse(&[
+                    json!({"type": "response.completed", "response": {"id": format!("resp_{k}")}}),
+                    json!({"type": "response.output_item.done", "output_index": 0, "item": {"type": "function_call", "id": format!("fc_{k}"), "call_id": format!("call_{k}"), "name": item_tool(item), "arguments": item_args(item)}}),
+                    Value::String("[DONE]".into()),
+                ])],
+                abort: false,
+            }
+        };
+        let mut responses: Vec<Resp> = (0..*rounds).map(call).collect();
+        responses.push(text("done"));
+        provider.script(&key, responses, true);
+        let _ = app.post_and_wait(&thread, "second question", None, Duration::from_secs(8));
+        let received = provider.received(&key);
+        report.eval(Some(&("prior_turn", item, rounds, stateless, choice)));
+        report.count("prior_turn_runs", 1);
+        let case = json!({"engine": "P", "harness": "c16.prior_turn", "item": format!("{item:?}"), "tool_rounds": rounds, "stateless_history": stateless, "tool_choice": format!("{choice:?}")});
+        if received.len() != rounds + 1 {
+            report.violation("C16:request_count:prior_turn", case.clone(), &format!("{} requests for {rounds} tool round(s) after an earlier turn", received.len()));
+        }
+        for (k, r) in received.iter().enumerate() {
+            let errs = crate::orschema::create_response_body_errors(r);
+            if !errs.is_empty() {
+                report.violation("C16:invalid_request_sent", case.clone(), &format!("request #{k} reached the provider although it fails the schema: {}", errs.join(" | ")));
+                break;
+            }
+        }
+        if *stateless {
+            for k in 1..received.len() {
+                let a = received[k - 1]["input"].as_array().cloned().unwrap_or_default();
+                let b = received[k]["input"].as_array().cloned().unwrap_or_default();
+                if b.len() < a.len() || b[..a.len()] != a[..] {
+                    report.violation(
+                        "C16:stateless_history_not_extending",
+                        case.clone(),
+                        &format!("request #{k}'s input ({} items) does not extend request #{}'s ({} items): the first differing position holds {} vs {}", b.len(), k - 1, a.len(), a.iter().zip(b.iter()).find(|(x, y)| x != y).map(|(x, _)| crate::common::compact(x, 120)).unwrap_or_else(|| "-".into()), a.iter().zip(b.iter()).find(|(x, y)| x != y).map(|(_, y)| crate::common::compact(y, 120)).unwrap_or_else(|| "(shorter)".into())),
+                    );
+                    break;
+                }
+            }
+        }
+        provider.forget(&key);
+    });
+}
+
 pub fn numbering_sweep(report: &Report) {
     let rt = new_mt_rt();
     let provider = Provider::start(&rt);
@@ -490,7 +623,7 @@ pub fn run(opts: Opts) -> i32 {
          deltas then done} x output_index {in order, reversed, missing (ties)} x duplicates {none, repeated done, shared call id, a call id coming back on a non-adjacent third item} x \
          {[DONE], none} x item ids {present, missing}; tool_choice in {auto, none, required, function(write), function(read), \
          allowed[read], allowed[]} (all 7 on scripts with <=1 item, auto+none+function(read) otherwise in quick); both history modes; \
-         plus an endless-call script under tool_choice {auto, none, function(read)} (executed and refused calls both count against the bound of 32); judged on the requests the provider received, the appended file and the log",
+         plus an endless-call script under tool_choice {auto, none, function(read)} (executed and refused calls both count against the bound of 32); judged on the requests the provider received (each also against the schema files, compiled independently of the gate under test), the appended file and the log; plus one call whose call id / function name is at or beyond the schema's limits (6 ids x 6 names x 2 history modes), and 32 runs that start from a compiled context with an earlier turn and make 1 or 2 tool rounds",
     );
     report.assume("reference: a call is completed by its output_item.done; distinct call ids, ordered by output_index with emission order breaking ties; a repeated done / shared call id denotes ONE call");
     let tier = report.tier();
@@ -529,6 +662,8 @@ pub fn run(opts: Opts) -> i32 {
                 run_endless(&report, &rt, &provider, &format!("c16e-{n}/v1/responses"), stateless, &c);
             }
         }
+        odd_identifier_sweep(&report, &rt, &provider);
+        prior_turn_sweep(&report, &rt, &provider);
     });
     report.finish()
 }
